@@ -216,6 +216,22 @@ def may_complete_self(R, ro, fi, _seen=None):
     return False
 
 
+def caller_sites(R, ro, method, param):
+    """[(caller FuncInfo, cfg node, call, source of the argument bound to `param`)] for the calls of `method` from TaskScheduler
+    methods, with a plain-name argument."""
+    out = []
+    for m in ro.ts_methods():
+        if m is method:
+            continue
+        for n, c in ro.calls_to(m, [method]):
+            a = arg_for_param(c, method, param)
+            if isinstance(a, ast.Name):
+                out.append((m, n, c, a.id))
+            else:
+                return []
+    return out
+
+
 def step_live(R, ro, rule):
     ct = ro.continue_task_method()
     st = ro.step_method_task()
@@ -247,7 +263,37 @@ def step_live(R, ro, rule):
         return None
 
     if not completing:
-        R.ok(rule, R.site(ct), "no call that can complete the task precedes the step")
+        # the completing call (resume of the contexts) may sit in the callers instead: then the call of the stepping method is
+        # guarded there
+        moved = False
+        for cf, cn, cc, arg in caller_sites(R, ro, ct, tp):
+            ccfg = cfg_of(cf)
+            for n2 in ccfg.nodes:
+                for c2 in kit.node_calls(n2):
+                    recv2, name2 = q.attr_call(c2)
+                    if recv2 is None or q.dotted(recv2) != arg:
+                        continue
+                    tg2 = [t for c3, t, k3 in R.res.callees(cf) if c3 is c2 and k3 == "resolved"]
+                    if not any(may_complete_self(R, ro, t) for t in (tg2[0] if tg2 else []) if t is not st):
+                        continue
+                    if ccfg.find_path([e.dst for e in ccfg.out_edges(n2.id, N)], [cn], N) is None:
+                        continue
+                    moved = True
+
+                    def live2(nd, arg=arg):
+                        if nd.kind != "test":
+                            return None
+                        k, s, pos = q.atom_test(nd.ast)
+                        if k == "call" and s == "%s.is_computed" % arg:
+                            return "F" if pos else "T"
+                        return None
+                    p = kit.path_avoiding_guard(ccfg, [cn], live2, N, sources=[e.dst for e in ccfg.out_edges(n2.id, N)])
+                    R.check(p is None, rule, "%s:%s" % (cf.qualname, q.stmt_key(c2)), R.site(cf, c2),
+                            "after %s (which can complete the task with an error) the task is handed on for stepping only if it is still uncomputed" % q.src(c2),
+                            "%s can complete the task and the task is stepped anyway: FutureIsAlreadyComputed escapes through the scheduler" % q.src(c2),
+                            ccfg.fmt_path(p) if p else None)
+        if not moved:
+            R.ok(rule, R.site(ct), "no call that can complete the task precedes the step")
     for n, c in completing:
         starts = [e.dst for e in cfg.out_edges(n.id, N)]
         p = kit.path_avoiding_guard(cfg, steps, live, N, sources=starts)
